@@ -22,6 +22,33 @@ def new_obj(ip, key, tag=None, **fields):
     return o
 
 
+def bind_args(ip, key, args, kwargs, literal_defaults=True):
+    """binds (args, kwargs) to the parameter list of the REAL function `key` the way python does: positional, then keywords, then the
+    definition's defaults (literal ones evaluated; others returned as AST).  Used by callee contracts so that they do not depend on how
+    the caller spells the call."""
+    import ast as _ast
+    node = ip.repo(key).node
+    names = [a.arg for a in node.args.args]
+    dflt = dict(zip(names[len(names) - len(node.args.defaults):], node.args.defaults))
+    bound = list(args)
+    if len(bound) > len(names):
+        raise PyRaise("TypeError", (f"{key}: too many positional arguments",))
+    for nm in names[len(args):]:
+        if nm in kwargs:
+            bound.append(kwargs[nm])
+        elif nm in dflt:
+            try:
+                bound.append(_ast.literal_eval(dflt[nm]) if literal_defaults else dflt[nm])
+            except ValueError:
+                bound.append(dflt[nm])
+        else:
+            raise PyRaise("TypeError", (f"{key}: missing argument {nm}",))
+    extra = [k for k in kwargs if k not in names]
+    if extra:
+        raise PyRaise("TypeError", (f"{key}: unexpected keyword argument {extra[0]}",))
+    return bound
+
+
 def method(ip, obj, name):
     _, m = obj.cls.find(ip, name)
     if m is None:
